@@ -44,6 +44,47 @@ class _Yielded(Exception):
         self.value = value
 
 
+def _snapshot(roots):
+    """[(object, saved state)] for every Rec / list / dict / set / bytearray reachable from roots (identity-preserving restore)"""
+    seen, out, todo = set(), [], list(roots)
+    while todo:
+        v = todo.pop()
+        if id(v) in seen:
+            continue
+        if isinstance(v, Rec):
+            seen.add(id(v))
+            d = dict(v.__dict__)
+            out.append((v, d))
+            todo.extend(d.values())
+        elif isinstance(v, (list, set, bytearray)):
+            seen.add(id(v))
+            out.append((v, type(v)(v)))
+            if not isinstance(v, bytearray):
+                todo.extend(v)
+        elif isinstance(v, dict):
+            seen.add(id(v))
+            out.append((v, dict(v)))
+            todo.extend(v.values())
+        elif isinstance(v, tuple):
+            todo.extend(v)
+    return out
+
+
+def _restore(snap):
+    for obj, saved in snap:
+        if isinstance(obj, Rec):
+            obj.__dict__.clear()
+            obj.__dict__.update(saved)
+        elif isinstance(obj, (list, bytearray)):
+            obj[:] = saved
+        elif isinstance(obj, set):
+            obj.clear()
+            obj.update(saved)
+        elif isinstance(obj, dict):
+            obj.clear()
+            obj.update(saved)
+
+
 class Gen:
     """A call of a repository generator function. Iteration replays the (pure) body up to the k-th yield, so the consumer's laziness is
     kept: nothing after the last value the consumer asked for is evaluated."""
@@ -53,6 +94,7 @@ class Gen:
 
         self.k = 0
         self.done = False
+        self.snap = None  # state of every record / mutable container reachable from the arguments, taken at the first step
 
     def __iter__(self):
         return self  # stateful, like a real generator object
@@ -298,6 +340,21 @@ class Interp:
         elif isinstance(st, (ast.FunctionDef,)):
             env[st.name] = Func(mod, st, closure=env)
         elif isinstance(st, ast.With):
+            # only the two context managers with a trivial, exactly known semantics: contextlib.suppress(*exceptions) and nullcontext()
+            if len(st.items) == 1 and st.items[0].optional_vars is None and isinstance(st.items[0].context_expr, ast.Call) and last_attr(st.items[0].context_expr.func) in ("suppress", "nullcontext"):
+                call = st.items[0].context_expr
+                if last_attr(call.func) == "nullcontext":
+                    self.block(st.body, env, mod, depth)
+                    return
+                names = [last_attr(a) for a in call.args]
+                if call.keywords or not all(names):
+                    raise AnalysisError(f"pyint: with-statement not modelled: {norm(st)[:80]}")
+                try:
+                    self.block(st.body, env, mod, depth)
+                except Raised as r:
+                    if not any(self.exc_isa(r.name, n, mod) for n in names):
+                        raise
+                return
             raise AnalysisError(f"pyint: with-statement not modelled: {norm(st)[:80]}")
         else:
             raise AnalysisError(f"pyint: statement not modelled: {norm(st)[:100]}")
@@ -1048,11 +1105,14 @@ class Interp:
     def run_gen_until(self, g: "Gen", k: int):
         """Replay the *pure* generator ``g`` from the start and stop at its k-th yield: ('yield', value) | ('stop', return value).
         Laziness is preserved (code after the k-th yield is not run), at quadratic cost - meant for short abstract inputs."""
-        import copy as _copy
-
-        env = {}
-        for name, v in g.env.items():
-            env[name] = _copy.copy(v) if isinstance(v, (list, dict, set, bytearray)) else v
+        # a replay starts from the state the generator call saw: effects of earlier replays on records / containers reachable from
+        # the arguments (self.buf += ..., self.x = ...) are undone in place first, so each effect happens once per real step.
+        # (Not supported: a consumer that itself mutates those same objects between two steps.)
+        if g.snap is None:
+            g.snap = _snapshot(list(g.env.values()))
+        else:
+            _restore(g.snap)
+        env = dict(g.env)
         self._gen_targets.append([k, 0])
         try:
             try:
